@@ -81,3 +81,29 @@ package keeper
 //@ loop 3 invariant [strongest_so_far] forall j in [0, i) :: reports[j].Value == mode ==> reports[j].Power <= maxWeight
 //@ loop 3 invariant [found_is_a_reporter_of_mode] maxWeight > 0 ==> modeReportIndex < i && reports[modeReportIndex].Value == mode && reports[modeReportIndex].Power == maxWeight && modeReport == reports[modeReportIndex]
 //@ loop 3 invariant [nothing_found_means_no_weight] maxWeight == 0 ==> wsum(reports, i, mode) == 0
+
+// ---- privileged handlers (C19) ----
+
+//@ func (k msgServer).UpdateParams(ctx, req) (resp, err)
+//@ requires [msg_present] req != nil
+//@ modifies G_*
+//@ ensures [only_governance_authority] err == nil ==> req.Authority == k.keeper.authority
+//@ ensures [rejected_request_changes_nothing] req.Authority != k.keeper.authority ==> err != nil && nothing_written()
+
+//@ func (k msgServer).UpdateCyclelist(ctx, req) (resp, err)
+//@ requires [msg_present] req != nil
+//@ modifies G_*
+//@ ensures [only_governance_authority] err == nil ==> req.Authority == k.keeper.authority
+//@ ensures [rejected_request_changes_nothing] req.Authority != k.keeper.authority ==> err != nil && nothing_written()
+
+// ---- MsgTip (C03, C04, C19) ----
+
+//@ func (k msgServer).Tip(goCtx, msg) (resp, err)
+//@ requires [msg_present] msg != nil
+//@ requires [tipper_is_not_the_oracle_account] addrstr(msg.Tipper) != module("oracle")
+//@ modifies G_*
+//@ ensures [only_the_signer_pays] forall a addr :: a != addrstr(msg.Tipper) && a != module("oracle") ==> bank.bal[a] == old(bank.bal[a])
+//@ ensures [signer_pays_exactly_the_tip] err == nil ==> bank.bal[addrstr(msg.Tipper)] == old(bank.bal[addrstr(msg.Tipper)]) - msg.Amount.Amount
+//@ ensures [oracle_account_keeps_tip_minus_burn] err == nil ==> bank.bal[module("oracle")] == old(bank.bal[module("oracle")]) + msg.Amount.Amount - 2*msg.Amount.Amount/100
+//@ ensures [two_percent_burned] err == nil ==> bank.supply == old(bank.supply) - 2*msg.Amount.Amount/100
+//@ ensures [only_positive_loya_tips] err == nil ==> msg.Amount.Amount > 0 && msg.Amount.Denom == "loya"
